@@ -130,7 +130,15 @@ def signature(v):
         sig += f":{a['subj']['kind']}-declared-{a['subj']['declared']}"
     if v["rule"] in ("C15.actor.type", "C08.exchange.actor"):
         sig += f":{a['actor']['kind']}-declared-{a['actor']['declared']}"
+    if (v["rule"].startswith("C05.") or v["rule"].endswith((".auth", ".authenticated"))) and isinstance(a.get("cred"), dict):
+        # which credential was presented by a client registered for which method
+        c = a["cred"]
+        what = c.get("key") if c.get("kind") == "assertion" else c.get("secret")
+        sig += f":{c.get('kind')}-{what}-for-{WORLD_AUTH.get(a.get('caller'), 'unknown')}" + ("+key" if WORLD_KEY.get(a.get('caller')) else "")
     return sig
+
+
+WORLD_AUTH, WORLD_KEY = {}, {}
 
 
 WALKS = dict(code=300, refresh=300, tokenuse=150, device=300, exchange=150, clientauth=60, logout=200, authorize=200, issue=150)
@@ -139,6 +147,8 @@ WALKS = dict(code=300, refresh=300, tokenuse=150, device=300, exchange=150, clie
 def op_part(pid, tier, seed, wd, spec):
     """Runs the OP-family pipeline for `spec` (an entry of FAMILY). Returns dict(new, known, coverage, assumptions)."""
     res, viols = op_pipeline(pid, tier, seed, spec["fam"], wd, focus=spec.get("focus"))
+    for c, r in json.load(open(os.path.join(wd, "world.json")))["clients"].items():
+        WORLD_AUTH[c], WORLD_KEY[c] = r["auth"], r.get("hasKey") and r["auth"] != "pkjwt"
     trace = read_ndjson(os.path.join(wd, "trace.ndjson"))
     mine = [v for v in viols if v["rule"].startswith(spec["prefixes"])]
     for v in mine:
